@@ -15,11 +15,38 @@ PROPS = {
     'C16': {
         'families': [ARITH],
         'kinds': ['fn:*'],
-        'lean_modules': [],
-        'theorems': [],
+        'lean_modules': ['UtreexoVerif.Props.C16'],
+        'theorems': ['UtreexoVerif.Props.C16.' + t for t in [
+            'enc_lt', 'encU_toNat', 'enc_row_lt', 'enc_injective', 'parent_enc', 'leftChild_enc',
+            'rightChild_enc', 'detectRow_enc', 'sibling_enc', 'sibling_enc_sib', 'leftSib_enc',
+            'rightSib_enc', 'isLeftNiece_enc', 'startPositionAtRow_enc', 'maxPossiblePosAtRow_enc',
+            'translatePos_enc', 'treeRows_spec']] + ['UtreexoVerif.Tie.tie_Parent', 'UtreexoVerif.Tie.tie_DetectOffset',
+            'UtreexoVerif.Tie.tie_calcNextPosition', 'UtreexoVerif.Tie.tie_calcPrevPosition', 'UtreexoVerif.Tie.tie_translatePos',
+            'UtreexoVerif.Tie.tie_rootPosition', 'UtreexoVerif.Tie.tie_inForest', 'UtreexoVerif.Tie.tie_isAncestor'],
         'rule': 'fn lines: every utils.go position function evaluated by Go and by the Lean model at the same point; exhaustive for forestRows<=4 (quick) / 6 (thorough), boundary and random 64-bit values up to 255 rows; distinct = distinct (function,arguments) lines',
         'trusted': COMMON_TRUST,
         'assumptions': ['Go int is modelled by unbounded Int (only used on values below 300)'],
+    },
+    'C03': {
+        'families': [{'name': 'verify', 'shards': {'quick': 4, 'thorough': 16}, 'seeds': {'quick': 1, 'thorough': 2}},
+                     {'name': 'verifyexh', 'shards': {'quick': 8, 'thorough': 16}}],
+        'kinds': ['verify', 'sound'],
+        'lean_modules': ['UtreexoVerif.Props.C03'],
+        'theorems': ['UtreexoVerif.Props.C03.verify_sound', 'UtreexoVerif.Props.C03.pollardVerify_sound',
+                     'UtreexoVerif.Props.C03.mapVerify_sound', 'UtreexoVerif.Proofs.CalcSound.calc_sound'],
+        'rule': 'adversarial (hashes, targets, proof) triples against reachable states: exhaustive over a small alphabet for forests <= 4 (quick) / 6 (thorough) leaves, structured mutation of honest proofs for larger ones; every verifier result compared with the Lean model of calculateHashes/Verify; every accepted input checked against the specification forest (soundness oracle); non-trivial = accepted',
+        'trusted': COMMON_TRUST,
+        'assumptions': ['collision-freeness of SHA-512/256 (hypothesis CR of the theorems)'],
+    },
+    'C04': {
+        'families': [{'name': 'verify', 'shards': {'quick': 4, 'thorough': 16}, 'seeds': {'quick': 1, 'thorough': 2}},
+                     {'name': 'verifyexh', 'shards': {'quick': 8, 'thorough': 16}}],
+        'kinds': ['verify', 'stumpupdate'],
+        'lean_modules': [],
+        'theorems': [],
+        'rule': 'same adversarial inputs as C03 (targets up to 2^64-1, duplicates, mismatched lengths, empty and oversized proofs); every call runs under recover and a watchdog; outcomes ok/err/panic/hang compared with the model; the stump left behind by a rejected Update compared with the model (unchanged)',
+        'trusted': COMMON_TRUST,
+        'assumptions': [],
     },
     'C01': {
         'families': [FOREST, FORESTEXH],
